@@ -177,6 +177,26 @@ func MayFollow(a, b ssa.Instruction) bool {
 	return CanReach(ba, bb)
 }
 
+// MayFollowOn reports whether b may execute after a on the same object al: a
+// local variable declared inside a loop is a new object each time round, so
+// a way from a to b that passes the variable's own allocation does not count.
+func MayFollowOn(al *ssa.Alloc, a, b ssa.Instruction) bool {
+	ba, bb := a.Block(), b.Block()
+	if ba == bb && InstrIndex(a) < InstrIndex(b) {
+		return true
+	}
+	if al == nil || al.Block() == nil || al.Parent() != a.Parent() {
+		return MayFollow(a, b)
+	}
+	stop := map[*ssa.BasicBlock]bool{al.Block(): true}
+	for _, s := range ba.Succs {
+		if Reachable(s, stop)[bb] {
+			return true
+		}
+	}
+	return false
+}
+
 // Returns lists the return instructions of fn.
 func Returns(fn *ssa.Function) []*ssa.Return {
 	var out []*ssa.Return
